@@ -73,12 +73,12 @@ Definition Pexactrow (k f l : nat) (wb : option geometry) (s : asg) : Prop :=
   Forall (fun r => Forall (fun n => n = k) (bruns (col s f l (fst r) (snd r)))) (windows_of fb wb).
 
 Definition vls_of (f l : nat) (rs : list (nat * nat)) : list (list nat) :=
-  map (fun r => map (fun t => gvar fb t f l) (seq (fst r) (snd r - fst r))) rs.
+  map (fun r => map (fun t => gvar fb t f l) (trials_of fb f (fst r) (snd r))) rs.
 
 Lemma vls_pos f l rs : Forall (Forall (fun v => 0 < v)) (vls_of f l rs).
 Proof.
   apply Forall_map. apply Forall_forall. intros r _. apply Forall_map. apply Forall_forall. intros t _.
-  apply (gvar_pos fb HF1 HT).
+  apply gvar_pos.
 Qed.
 
 Lemma vls_bound f l rs fresh v vl :
@@ -92,10 +92,10 @@ Proof.
 Qed.
 
 Lemma guard_inarow k f l wb :
-  ((0 <? k) && isact fb f && (l <? nlevels fb f) && geom_ok fb wb)%bool = true ->
-  0 < k /\ isact fb f = true /\ l < nlevels fb f /\ exists rs, map_block_trial_ranges fb wb = Some rs.
+  ((0 <? k) && isact fb f && (l <? nlevels fb f) && geom_ok fb wb && stride1 fb f)%bool = true ->
+  0 < k /\ isact fb f = true /\ l < nlevels fb f /\ stride1 fb f = true /\ exists rs, map_block_trial_ranges fb wb = Some rs.
 Proof.
-  rewrite !andb_true_iff. intros [[[A B] C] D]. apply Nat.ltb_lt in A, C.
+  rewrite !andb_true_iff. intros [[[[A B] C] D] E]. apply Nat.ltb_lt in A, C.
   repeat split; try assumption. now apply geom_ok_some.
 Qed.
 
@@ -110,11 +110,11 @@ Lemma step_atleast k f l wb :
   forall fresh ct, (GZ < fresh)%Z -> apply_constraint fb (FAtLeast k f l wb) fresh = COk ct ->
   exists ext, DefinesA (fresh - 1) (ct_fresh ct - 1) (ct_clauses ct) (ct_requests ct) ext (Patleast k f l wb).
 Proof.
-  intros Hc fresh ct Hfr E. cbn [constraint_f1] in Hc. destruct (guard_inarow k f l wb Hc) as (Hk & Hf & Hl & rs & Ers).
+  intros Hc fresh ct Hfr E. cbn [constraint_f1] in Hc. destruct (guard_inarow k f l wb Hc) as (Hk & Hf & Hl & Hst & rs & Ers).
   pose proof (f1_ranges_bound fb wb rs Ers) as Hb.
   assert (HGZ : (0 <= GZ)%Z) by (unfold F1Kinds.GZ, zn; lia).
   cbn [apply_constraint] in E. unfold apply_atleast in E.
-  rewrite (f1_var_lists fb HF1 f l wb rs Hf Hl Ers) in E. cbn [cbind] in E. fold (vls_of f l rs) in E.
+  rewrite (f1_var_lists fb HF1 f l wb rs HT Hf Hl Ers) in E. cbn [cbind] in E. fold (vls_of f l rs) in E.
   destruct (cnf_fn _ fresh) as [cls fresh'] eqn:Ecnf. inversion E. subst ct. clear E.
   cbn [ct_fresh ct_clauses ct_requests].
   assert (HL : forall z, In z (leaves (FAnd (flat_map (fun vl => atleast_impls k vl (windows (k + 1) vl)) (vls_of f l rs)))) ->
@@ -130,8 +130,8 @@ Qed.
 Lemma atleast_total k f l wb fresh :
   constraint_f1 fb (FAtLeast k f l wb) = true -> exists ct, apply_constraint fb (FAtLeast k f l wb) fresh = COk ct.
 Proof.
-  intros Hc. cbn [constraint_f1] in Hc. destruct (guard_inarow k f l wb Hc) as (Hk & Hf & Hl & rs & Ers).
-  cbn [apply_constraint]. unfold apply_atleast. rewrite (f1_var_lists fb HF1 f l wb rs Hf Hl Ers). cbn [cbind].
+  intros Hc. cbn [constraint_f1] in Hc. destruct (guard_inarow k f l wb Hc) as (Hk & Hf & Hl & Hst & rs & Ers).
+  cbn [apply_constraint]. unfold apply_atleast. rewrite (f1_var_lists fb HF1 f l wb rs HT Hf Hl Ers). cbn [cbind].
   destruct (cnf_fn _ _). eexists. reflexivity.
 Qed.
 
@@ -141,11 +141,11 @@ Lemma step_exactrow k f l wb :
   forall fresh ct, (GZ < fresh)%Z -> apply_constraint fb (FExactlyKInARow k f l wb) fresh = COk ct ->
   exists ext, DefinesA (fresh - 1) (ct_fresh ct - 1) (ct_clauses ct) (ct_requests ct) ext (Pexactrow k f l wb).
 Proof.
-  intros Hc fresh ct Hfr E. cbn [constraint_f1] in Hc. destruct (guard_inarow k f l wb Hc) as (Hk & Hf & Hl & rs & Ers).
+  intros Hc fresh ct Hfr E. cbn [constraint_f1] in Hc. destruct (guard_inarow k f l wb Hc) as (Hk & Hf & Hl & Hst & rs & Ers).
   pose proof (f1_ranges_bound fb wb rs Ers) as Hb.
   assert (HGZ : (0 <= GZ)%Z) by (unfold F1Kinds.GZ, zn; lia).
   cbn [apply_constraint] in E. unfold apply_exactlykinarow in E.
-  rewrite (f1_var_lists fb HF1 f l wb rs Hf Hl Ers) in E. cbn [cbind] in E. fold (vls_of f l rs) in E.
+  rewrite (f1_var_lists fb HF1 f l wb rs HT Hf Hl Ers) in E. cbn [cbind] in E. fold (vls_of f l rs) in E.
   destruct (ekr_loop k (vls_of f l rs) [] fresh) as [cls fresh'] eqn:Eloop. inversion E. subst ct. clear E.
   cbn [ct_fresh ct_clauses ct_requests].
   assert (HL : forall z, In z (leaves (FAnd ([] ++ ekr_all k (vls_of f l rs)))) -> z <> 0%Z /\ (Z.abs z < fresh)%Z).
@@ -161,8 +161,8 @@ Qed.
 Lemma exactrow_total k f l wb fresh :
   constraint_f1 fb (FExactlyKInARow k f l wb) = true -> exists ct, apply_constraint fb (FExactlyKInARow k f l wb) fresh = COk ct.
 Proof.
-  intros Hc. cbn [constraint_f1] in Hc. destruct (guard_inarow k f l wb Hc) as (Hk & Hf & Hl & rs & Ers).
-  cbn [apply_constraint]. unfold apply_exactlykinarow. rewrite (f1_var_lists fb HF1 f l wb rs Hf Hl Ers). cbn [cbind].
+  intros Hc. cbn [constraint_f1] in Hc. destruct (guard_inarow k f l wb Hc) as (Hk & Hf & Hl & Hst & rs & Ers).
+  cbn [apply_constraint]. unfold apply_exactlykinarow. rewrite (f1_var_lists fb HF1 f l wb rs HT Hf Hl Ers). cbn [cbind].
   destruct (ekr_loop _ _ _ _). eexists. reflexivity.
 Qed.
 
@@ -171,15 +171,15 @@ Theorem atleast_sem s q k f l wb :
   onehot fb s q -> constraint_f1 fb (FAtLeast k f l wb) = true ->
   (Patleast k f l wb s <-> constraint_ok (code_sem fb) q (mk_c (KAtLeast k) f l (windows_of fb wb)) = true).
 Proof.
-  intros Ho Hc. cbn [constraint_f1] in Hc. destruct (guard_inarow k f l wb Hc) as (Hk & Hf & Hl & rs & Ers).
+  intros Ho Hc. cbn [constraint_f1] in Hc. destruct (guard_inarow k f l wb Hc) as (Hk & Hf & Hl & Hst & rs & Ers).
   pose proof (f1_ranges_bound fb wb rs Ers) as Hb.
   unfold Patleast, constraint_ok, mk_c. cbn [k_kind k_factor k_level k_windows]. rewrite (ranges_of fb wb rs Ers).
   rewrite forallb_forall, Forall_forall. split; intros H r Hr; specialize (H r Hr);
     pose proof (proj1 (Forall_forall _ _) Hb r Hr) as [_ Hr2].
   - rewrite forallb_forall. intros n Hn. apply Nat.leb_le.
-    rewrite runs_bruns, <- (col_slice fb HF1 HT s q f l (fst r) (snd r) Ho Hf Hl Hr2) in Hn.
+    rewrite runs_bruns, (col_bruns fb HF1 HT s q f l (fst r) (snd r) Ho Hf Hst Hl Hr2) in Hn.
     exact (proj1 (Forall_forall _ _) H n Hn).
-  - rewrite (col_slice fb HF1 HT s q f l (fst r) (snd r) Ho Hf Hl Hr2), <- runs_bruns.
+  - rewrite <- (col_bruns fb HF1 HT s q f l (fst r) (snd r) Ho Hf Hst Hl Hr2), <- runs_bruns.
     apply Forall_forall. intros n Hn. rewrite forallb_forall in H. apply Nat.leb_le. now apply H.
 Qed.
 
@@ -187,15 +187,15 @@ Theorem exactrow_sem s q k f l wb :
   onehot fb s q -> constraint_f1 fb (FExactlyKInARow k f l wb) = true ->
   (Pexactrow k f l wb s <-> constraint_ok (code_sem fb) q (mk_c (KExactlyInARow k) f l (windows_of fb wb)) = true).
 Proof.
-  intros Ho Hc. cbn [constraint_f1] in Hc. destruct (guard_inarow k f l wb Hc) as (Hk & Hf & Hl & rs & Ers).
+  intros Ho Hc. cbn [constraint_f1] in Hc. destruct (guard_inarow k f l wb Hc) as (Hk & Hf & Hl & Hst & rs & Ers).
   pose proof (f1_ranges_bound fb wb rs Ers) as Hb.
   unfold Pexactrow, constraint_ok, mk_c. cbn [k_kind k_factor k_level k_windows]. rewrite (ranges_of fb wb rs Ers).
   rewrite forallb_forall, Forall_forall. split; intros H r Hr; specialize (H r Hr);
     pose proof (proj1 (Forall_forall _ _) Hb r Hr) as [_ Hr2].
   - rewrite forallb_forall. intros n Hn. apply Nat.eqb_eq.
-    rewrite runs_bruns, <- (col_slice fb HF1 HT s q f l (fst r) (snd r) Ho Hf Hl Hr2) in Hn.
+    rewrite runs_bruns, (col_bruns fb HF1 HT s q f l (fst r) (snd r) Ho Hf Hst Hl Hr2) in Hn.
     exact (proj1 (Forall_forall _ _) H n Hn).
-  - rewrite (col_slice fb HF1 HT s q f l (fst r) (snd r) Ho Hf Hl Hr2), <- runs_bruns.
+  - rewrite <- (col_bruns fb HF1 HT s q f l (fst r) (snd r) Ho Hf Hst Hl Hr2), <- runs_bruns.
     apply Forall_forall. intros n Hn. rewrite forallb_forall in H. apply Nat.eqb_eq. now apply H.
 Qed.
 
